@@ -184,7 +184,7 @@ func runRXDTLCP(cfg rxCfg) (o rxOut, err string) {
 	ccfg, scfg := pair.DClient(), pair.DServer()
 	ccfg.CipherSuites, scfg.CipherSuites = []uint16{cfg.suite}, []uint16{cfg.suite}
 	ccfg.SessionCache, scfg.SessionCache = cc, sc
-	ccfg.InitialRetransmitTimeout, scfg.InitialRetransmitTimeout = 3*time.Second, 3*time.Second
+	ccfg.InitialRetransmitTimeout, scfg.InitialRetransmitTimeout = 6*time.Second, 6*time.Second
 	var mu sync.Mutex
 	hold := false
 	var held []byte
